@@ -63,6 +63,7 @@ func WorkerMain(id, tier string) int {
 		curUnit = unit
 		mu.Unlock()
 		w := NewWorker(chk, tier)
+		w.Unit = unit
 		t0 := time.Now()
 		chk.Run(w, tier, unit)
 		res := w.Result(unit, time.Since(t0).Seconds())
@@ -102,6 +103,17 @@ func ReplayMain(path string) int {
 		fmt.Fprintf(os.Stderr, "unknown check %s (is this the right binary?)\n", rp.Property)
 		return 2
 	}
+	if rp.History && rp.Unit != "" {
+		w := NewWorker(chk, rp.Tier)
+		w.Unit = rp.Unit
+		chk.Run(w, rp.Tier, rp.Unit)
+		if w.Sigs()[rp.Sig] {
+			fmt.Printf("REPLAY-VIOLATES property=%s (history-dependent: unit %s run from a fresh process reaches signature %s)\n", rp.Property, rp.Unit, rp.Sig)
+			return 1
+		}
+		fmt.Printf("REPLAY-HOLDS property=%s (unit %s run from a fresh process does not reach the signature)\n", rp.Property, rp.Unit)
+		return 0
+	}
 	r := chk.Eval(rp.Case)
 	hit := false
 	for _, o := range r.Obs {
@@ -137,6 +149,12 @@ type ReplayFile struct {
 	Count    int64  `json:"attributed_cases"`
 	Instr    bool   `json:"needs_instrumented_build,omitempty"`
 	How      string `json:"how_to_replay"`
+	// History: the violation depends on what the process did before the case (hidden state in
+	// the library). It does not reproduce when the case is evaluated alone in a fresh process;
+	// the replay then re-runs the enumeration unit that reached it and looks for the signature.
+	History bool   `json:"depends_on_process_history,omitempty"`
+	Unit    string `json:"unit,omitempty"`
+	Tier    string `json:"tier,omitempty"`
 }
 
 type unitRow struct {
@@ -329,16 +347,39 @@ func RunCheck(id, tier string) int {
 		path := filepath.Join(replayDir, fmt.Sprintf("%x.json", h[:6]))
 		rp.How = fmt.Sprintf("cd /verif && ./run replay %s", path)
 		data, _ := json.MarshalIndent(rp, "", " ")
-		ok := true
-		for k := 0; k < 5; k++ {
+		replayOnce := func(d []byte) (bool, string) {
 			cmd := exec.Command(exe, "replay", "-")
-			cmd.Stdin = bytes.NewReader(data)
+			cmd.Stdin = bytes.NewReader(d)
 			outb, _ := cmd.CombinedOutput()
-			if cmd.ProcessState == nil || cmd.ProcessState.ExitCode() != 1 {
-				ok = false
-				unconfirmed = append(unconfirmed, v.Sig+" :: "+strings.TrimSpace(string(outb)))
-				break
+			return cmd.ProcessState != nil && cmd.ProcessState.ExitCode() == 1, strings.TrimSpace(string(outb))
+		}
+		ok := true
+		first, out1 := replayOnce(data)
+		if first {
+			for k := 0; k < 4; k++ {
+				if again, out := replayOnce(data); !again {
+					ok = false
+					unconfirmed = append(unconfirmed, v.Sig+" :: flaky alone :: "+trunc(out, 300))
+					break
+				}
 			}
+		} else if v.Unit != "" && v.Clause != "regression" {
+			// not reproducible alone: the library may keep state between calls. Re-run the whole
+			// unit in fresh processes; if the same signature appears every time it is a
+			// deterministic, history-dependent violation.
+			rp.History, rp.Unit, rp.Tier = true, v.Unit, tier
+			rp.How = fmt.Sprintf("cd /verif && ./run replay %s   # re-runs unit %s in a fresh process", path, v.Unit)
+			data, _ = json.MarshalIndent(rp, "", " ")
+			for k := 0; k < 3; k++ {
+				if again, out := replayOnce(data); !again {
+					ok = false
+					unconfirmed = append(unconfirmed, v.Sig+" :: not reproducible alone nor by unit replay :: "+trunc(out1, 200)+" / "+trunc(out, 200))
+					break
+				}
+			}
+		} else {
+			ok = false
+			unconfirmed = append(unconfirmed, v.Sig+" :: "+trunc(out1, 300))
 		}
 		if !ok {
 			continue
